@@ -129,6 +129,7 @@ static uint64_t run_one(Prop *prop, const J &plan, Acc *acc, bool count) {
 		acc->policies[pn[plan["sched"].geti("policy", 0) % 6]]++;
 		if (plan["sched"].geti("fn_yield", 0) > 0) acc->policies["fn-entry-preemption"]++;
 		if (plan["sched"].geti("jitter_us", 0) > 0) acc->policies["sleep-jitter"]++;
+		if (plan["sched"].geti("grid_us", 1) > 1) acc->policies["time-grid-" + std::to_string(plan["sched"].geti("grid_us", 1)) + "us"]++;
 		J facts = J::obj();
 		prop->coverage(e, facts);
 		const J &pr = facts["probes"];
